@@ -41,6 +41,8 @@ def _run(prog, chk):
     PC.check_guards(prog, chk, "C01.guards", T.basic_rules(root))
     chk.rule("C01.okgate", "no internal rule reports OK on a path that left a failed helper call", floor=20)
     PC.check_ok_after_failure(prog, chk, "C01.okgate", T.basic_rules(root))
+    chk.rule("C01.compare", "equality / ordering primitives used by every rule: all octets, all 64 bits, NULL never equal", floor=50)
+    PC.check_comparators(prog, chk, "C01.compare")
     chk.rule("C01.metadata", "INT-11: metadata padding / imprint ambiguity scenario table", floor=15)
     PC.check_metadata(prog, chk, "C01.metadata")
 
